@@ -525,7 +525,7 @@ def evaluate__round(self: XPathFunction, context: ta.ContextType = None) -> ta.O
     except decimal.InvalidOperation:
         if not isinstance(arg, str):
             assert isinstance(arg, (int, float, decimal.Decimal))
-            return round(arg)
+            return type(arg)(round(arg))
         elif isinstance(context, XPathSchemaContext):
             return []
         raise self.error('XPTY0004') from None
